@@ -46,15 +46,37 @@ fn main() {
             let rounds: usize = args[4].parse().unwrap();
             let seed: u64 = args[5].parse().unwrap();
             let reqs: Vec<String> = content.lines().map(|l| l.to_string()).collect();
-            // expected: each request on its own fresh interpreters
-            let expected: Vec<String> = reqs
-                .iter()
-                .map(|r| {
-                    let fresh = exec::Langs::new();
-                    exec::exec(&fresh, r)
-                })
-                .collect();
-            let shared = std::sync::Arc::new(exec::Langs::new());
+            // expected: each request on its own fresh interpreters, created on a FRESH THREAD with the request's
+            // own language constructed first (minimal history: nothing was created or called before it on that
+            // thread, so per-thread or construction-order state cannot leak into the reference)
+            fn lang_of(r: &str) -> String {
+                let f = r.split('\t').nth(1).unwrap_or("");
+                f.trim_start_matches("L:").trim_start_matches("G:").to_string()
+            }
+            let mut expected: Vec<String> = Vec::with_capacity(reqs.len());
+            for chunk in reqs.chunks(64) {
+                let hs: Vec<_> = chunk
+                    .iter()
+                    .map(|r| {
+                        let r = r.clone();
+                        std::thread::spawn(move || {
+                            let l = lang_of(&r);
+                            let fresh = exec::Langs::new_ordered(&[l.as_str()]);
+                            exec::exec(&fresh, &r)
+                        })
+                    })
+                    .collect();
+                for h in hs {
+                    expected.push(h.join().unwrap());
+                }
+            }
+            // the shared set is constructed in a seed-dependent order
+            let mut order: Vec<&str> = exec::CODES.to_vec();
+            order.rotate_left((seed % 7) as usize);
+            if seed % 2 == 0 {
+                order.reverse();
+            }
+            let shared = std::sync::Arc::new(exec::Langs::new_ordered(&order));
             let reqs = std::sync::Arc::new(reqs);
             let expected = std::sync::Arc::new(expected);
             // history dependence on a single thread first: the whole list, in order, on the shared interpreters
